@@ -61,6 +61,15 @@ def case_st(draw, shapes, strand=False):
             ins = draw(xforms.insertions_st(v, m, max_ins=3, allow_malformed=False,
                                             with_id=True))
             base.setdefault(name, {})["insertions"] = ins
+        # element renames / fills are part of BOTH runs: they must follow the display order
+        if refs and draw(st.integers(0, 2)) == 0:
+            tgt = draw(st.lists(st.sampled_from(list(refs)), min_size=1, max_size=2, unique=True))
+            els = {}
+            for k_, r_ in enumerate(tgt):
+                els[str(r_)] = draw(st.sampled_from([{"name": "REN%d" % k_},
+                                                      {"fill": "#0%d0%d0%d" % (k_, k_, k_)},
+                                                      {"name": "REN%d" % k_, "fill": "#abcdef"}]))
+            base.setdefault(name, {})["elements"] = els
         info.append((name, var, part, refs, ins))
     for k, (name, var, part, refs, ins) in enumerate(info):
         t = copy.deepcopy(base.get(name, {}))
@@ -73,7 +82,10 @@ def case_st(draw, shapes, strand=False):
             t["order"] = order
         elements, prune = draw(xforms.hide_prune_st(refs, p_hide=2, p_prune=2))
         if elements:
-            t["elements"] = elements
+            merged = dict(t.get("elements") or {})
+            for k_, v_ in elements.items():
+                merged[k_] = dict(merged.get(k_, {}), **v_)
+            t["elements"] = merged
         if prune:
             t["prune"] = True
         if t:
